@@ -111,7 +111,9 @@ Step(ev) ==
       /\ (Emit => PrintT("CASE|" \o ToJson([pre |-> TreeJson(m), op |-> ev.op, args |-> ev.args, depth |-> depth])))
       /\ \E t \in r.res :
            /\ m' = t
-           /\ mfail' = {ev.op \o "." \o f : f \in Judge(ev, MView(m), MView(t))}
+           \* judged like a recorded step: only between two trees of the domain (>= 2 tips, root with >= 2 children)
+           /\ mfail' = IF InDomain(MView(m)) /\ InDomain(MView(t))
+                       THEN {ev.op \o "." \o f : f \in Judge(ev, MView(m), MView(t))} ELSE {}
            /\ \A f \in mfail' : PrintT("MODELFAIL|" \o f \o "|" \o ToJson([pre |-> TreeJson(m), op |-> ev.op, args |-> ev.args]))
            /\ depth' = depth + 1
 
